@@ -222,6 +222,8 @@ def scenario(draw, p: Profile):
             handlers[hi] = h
             buses[tb]['hist'] = 50  # the back-pressure limit is only enforced on buses with a history limit
             sc['cap'] = max(sc['cap'], 400)
+    if getattr(p, 'hre_any', False):
+        sc['hre_any'] = True
     if p.shadow and chance(draw, p.shadow):
         sc['shadow'] = draw(st.lists(st.integers(0, nb - 1), min_size=1, max_size=nb, unique=True))
     if p.watch:
